@@ -21,8 +21,11 @@ pub fn check(family: &str, rec: &J) -> Verdict {
         "table" => table::check(rec),
         "lex" => lex::check_lex(rec),
         "syntax" => syntax::check(rec),
+        "e2e" => syntax::check_e2e(rec),
         "fault" => syntax::check_fault(rec),
         "poetic" => syntax::check_poetic(rec),
+        // crash freedom only for the recorded C11 finding (it is not a C09 matter)
+        "poeticrun" => if rec["fam"] == "saysopen" { lex::check_total(rec) } else { syntax::check_poetic(rec) },
         "fold" => lint::check_fold(rec),
         "lint" => lint::check_lint(rec),
         "visit" => lint::check_visit(rec),
